@@ -4,10 +4,11 @@
  "entry": "h_pn_unsigned",
  "enforce": ["parsenum_unsigned"],
  "replace": [],
+ "loop_contracts": false,
  "annotate": ["util/parsenum.h"],
- "defines": ["VERIF_HALLOC", "NUM_MAXLEN=8"],
- "thorough_defines": ["NUM_MAXLEN=70"],
- "models": ["models/num_strto.c"],
+ "defines": ["VERIF_HALLOC", "NUM_MAXLEN=12", "VERIF_STRMAX=14"],
+ "thorough_defines": ["NUM_MAXLEN=70", "VERIF_STRMAX=72"],
+ "models": ["models/num_strto.c", "models/libc_string.c"],
  "native": true,
  "native_models": ["models/num_strto.c"],
  "timeout": 300,
